@@ -336,7 +336,7 @@ def run(res, tier="quick", seed=0, widen=False):
     res.rule = ("margins: seeded datasets (1-10 rows, 1-3 keys with sparse label combinations and null keys, values with nulls, masks) x sum/count/size/min/max/mean x "
                 "margins=True or every subset of levels, compared row by row with the exact aggregate of the rows each ordinary / 'All' row summarises; "
                 "crosstab: 1-2 row keys x 1-2 column keys x six aggregations x margins False/True/'row'/'column' x masks, every cell / margin / corner against the exact "
-                "aggregate, absent combinations null; non-trivial = >= 2 keys or a mask (margins), every crosstab; distinct = canonical case")
+                "aggregate, absent combinations null; margins also over datetime64 / timedelta64 values above 2^53 and mixed float + temporal frames; add_row_margin itself vs the extracted model (1-4 levels, every level subset); groups labelled 'All' must be refused; non-trivial = >= 2 keys or a mask (margins), every crosstab; distinct = canonical case")
     margins_stream(res, rng, tier, GroupBy)
     crosstab_stream(res, rng, tier)
     add_row_margin_stream(res, rng, tier)
